@@ -11,6 +11,10 @@ elab "#audit_module " m:ident : command => do
   let names := env.header.moduleData[idx.toNat]!.constNames
   for n in names do
     if n.isInternalDetail then continue
+    -- skip compiler-generated equation / unfolding lemmas of definitions (`f.eq_1`, `f.eq_def`, …)
+    let last := n.getString!
+    if last.startsWith "eq_" || last == "eq_def" || last.startsWith "match_" || last == "induct" || last == "induct_unfolding"
+        || last == "fun_cases" || last == "fun_cases_unfolding" || last.startsWith "sizeOf_" || last == "injEq" || last == "inj" then continue
     match env.find? n with
     | some (.thmInfo _) =>
       let axs ← Lean.collectAxioms n
